@@ -9,7 +9,7 @@ import ast
 
 from ..astx import (calls_in, dotted, norm, src, iter_nodes, aliases_of, canon,
                     assigned_targets, const_value, is_const)
-from ..lib import (calls, cfg_nodes_with_call, node_calls, attr_assign_nodes, returns,
+from ..lib import (call_arg, relation, truth, other, cmp_views, core, holds_region, conditions, eval_conditions, relation_tests, atom_key, expand_condition, mode_mismatch_conditions, calls, cfg_nodes_with_call, node_calls, attr_assign_nodes, returns,
                    stmt_assigns_attr, callee_last, guard_region, find_test_nodes,
                    compare_parts, is_name, node_contains)
 from ..linear import lin, ctext, Lin, slice_bounds
@@ -395,11 +395,9 @@ def check_readers(c, repo):
     e0, e1 = k0.args[0].elts
     c.check(norm(e0) == 'self.crlf' and norm(e1) == 'self.delimiter', f, k0,
             'readline waits for [line separator, delimiter] in that order', witness=norm(k0.args[0]), kind='ast', tag='readline-list')
-    tests = find_test_nodes(f, lambda t: compare_parts(t) is not None and is_name(compare_parts(t)[0], idx)
-                            and isinstance(compare_parts(t)[1], ast.Eq) and is_const(compare_parts(t)[2], 0))
-    c.need(len(tests) == 1, 'readline: `if %s == 0` not found' % idx)
-    tr = guard_region(g, tests[0], 'true')
-    fr = guard_region(g, tests[0], 'false')
+    tests = relation_tests(g, 'eq', lambda e: is_name(e, idx), lambda e: is_const(e, 0))
+    c.need(len(tests) == 1, 'readline: test of %s against 0 not found' % idx)
+    tr = guard_region(g, tests[0][0], tests[0][1])
     rets = [n for n in returns(f) if g.path(n0, n, skip_labels=('exc',)) is not None]
     for n in rets:
         v = n.ast.value
@@ -423,10 +421,9 @@ def check_readers(c, repo):
             e0, e1 = k.args[0].elts
             c.check(isinstance(e0, ast.Name) and norm(e1) == 'self.delimiter', f, k,
                     'read(n) waits for [.{n} pattern, delimiter]', witness=norm(k.args[0]), kind='ast', tag='read-list')
-            tests = find_test_nodes(f, lambda t: compare_parts(t) is not None and is_name(compare_parts(t)[0], idx)
-                                    and isinstance(compare_parts(t)[1], ast.Eq) and is_const(compare_parts(t)[2], 0))
-            c.need(len(tests) == 1, 'read: `if %s == 0` not found' % idx)
-            tr = guard_region(g, tests[0], 'true')
+            tests = relation_tests(g, 'eq', lambda e: is_name(e, idx), lambda e: is_const(e, 0))
+            c.need(len(tests) == 1, 'read: test of %s against 0 not found' % idx)
+            tr = guard_region(g, tests[0][0], tests[0][1])
             rets = [m for m in returns(f) if g.path(n, m, skip_labels=('exc',)) is not None]
             for m in rets:
                 v = m.ast.value
